@@ -20,6 +20,8 @@ import (
 	"sort"
 	"strings"
 	"time"
+
+	"github.com/youzan/ZanRedisDB/internal/verifhook"
 )
 
 func PurgeFile(dirname string, suffix string, max uint, interval time.Duration, stop <-chan struct{}) <-chan error {
@@ -59,6 +61,7 @@ func purgeFile(dirname string, suffix string, max uint, interval time.Duration, 
 				if err != nil {
 					break
 				}
+				verifhook.Crash("purge.file")
 				if err = os.Remove(f); err != nil {
 					errC <- err
 					return
